@@ -2,7 +2,10 @@
 //! Usage: mc-core <PROPERTY> <quick|thorough>      |     mc-core <PROPERTY> --replay <file>
 mod conserve;
 mod ledger;
+mod cli;
+mod perm;
 mod preds;
+mod years;
 mod text;
 
 use mcx::run::{Tier, machinery_failure};
@@ -28,7 +31,10 @@ fn main() {
         "C01" => ledger::c01(tier),
         "C02" => ledger::c02(tier),
         "C03" => ledger::c03(tier),
+        "C04" => years::c04(tier),
         "C05" => ledger::c05(tier),
+        "C06" => perm::c06(tier),
+        "C07" => years::c07(tier),
         "C09" => ledger::c09(tier),
         "C10" => ledger::c10(tier),
         "C11" => ledger::c11(tier),
